@@ -7,7 +7,7 @@ import os
 from . import core
 from .core import cq_bool, cq_list, cq_nat
 
-THEOREMS = ["C26_count", "C26_count_total", "C26_count_head", "C26_narrow_parse_handler_escapes", "C26_zero_iff_success",
+THEOREMS = ["C26_count", "C26_count_total", "C26_count_head", "C26_narrow_parse_handler_escapes", "C26_every_file_bad", "C26_zero_iff_success",
             "C26_argument_errors", "C26_independent", "C26_example"]
 KNOWN_TAG = "parse-file-undecodable-escapes"
 
@@ -38,6 +38,7 @@ BROKEN = {
     "Bad3": "model Bad3\n  Real x;\nequation\n  x = 1;\nend Wrong\n",
 }
 UNDECODABLE_HEX = "model U\n Real x;\nequation\n x=1; // ".encode().hex() + "fffe" + "\nend U;\n".encode().hex()
+DEEP = "model Deep\n Real x;\nequation\n x = " + "(" * 400 + "1" + ")" * 400 + ";\nend Deep;\n"   # RecursionError
 GOOD = ["A", "B", "P", "C", "W", "F", "Bx", "Cx", "Empty"]
 MODEL_NAMES = ["A", "B", "P.M", "P.N", "P", "C", "W", "F", "Bx", "Cx", "Empty", "Zed", "P.Q", "A.x"]
 OPTS_OK = ["detect_aliases=True", "expand_vectors=true", "foo=bar", "check_balanced=False", "x="]
@@ -252,6 +253,31 @@ def gen_casadi_mult(rng):
     return assemble(rng, tree, paths, None, "casadi", models, [], "", "casadi-mult")
 
 
+def gen_all_bad(rng):
+    """Every collected .mo file has a parse error (2-4 of them: syntax errors, not UTF-8, too deeply
+    nested), given as files or through a directory holding nothing else; alone, with -m, with
+    -t sympy.  The exit status must be the number of files, not the 1 of 'No Modelica files'."""
+    pool = ["Bad1", "Bad2", "Bad3", "U"] + (["Deep"] if rng.random() < 0.2 else [])   # Deep costs ~1 s per parse
+    kinds = rng.sample(pool, rng.randint(2, 4))
+    tree = {"dirs": ["bad", "bad/sub", "out", "lib"], "files": {"lib/A.mo": TEMPLATES["A"],
+            "bad/readme.txt": "no modelica here\n"}, "bin": {}}
+    rels = []
+    for k in kinds:
+        rel = "%s/%s.mo" % (rng.choice(["bad", "bad/sub"]), k)
+        if k == "U":
+            tree["bin"][rel] = UNDECODABLE_HEX
+        else:
+            tree["files"][rel] = DEEP if k == "Deep" else BROKEN[k]
+        rels.append(rel)
+    paths = ["bad"] if rng.random() < 0.5 else rels
+    target = rng.choice([None, None, "sympy"])
+    models = [rng.choice(["A", "Bad1", "Zed"]) for _ in range(rng.randint(0, 2))]
+    if target and not models:
+        models = ["A"]
+    return assemble(rng, tree, paths, rng.choice([None, "out"]), target, models, [], rng.choice(["", "", "-v"]),
+                    "all-bad")
+
+
 def corpus():
     """Fixed invocations: one per mechanism, so every seed exercises every `errors +=` site."""
     T = TEMPLATES
@@ -301,6 +327,16 @@ def corpus():
     add(tree(lib_m, dirs=["extra"]), ["lib", "more", "extra"], None, "casadi", ["B", "A", "F", "Zed"])
     add(tree(lib_c), ["lib", "lib/B.mo", "lib/B.mo"], None, "casadi", ["B"])
     add(tree(lib_c), ["lib/B.mo", "lib/B.mo", "lib/B.mo", "lib/A.mo"], None, "casadi", ["A", "B"], solo=True)
+    # every collected file is bad: the count is the number of files, not "No Modelica files"
+    allbad = {"bad/Bad1.mo": BROKEN["Bad1"], "bad/Bad2.mo": BROKEN["Bad2"], "bad/sub/Bad3.mo": BROKEN["Bad3"],
+              "lib/A.mo": T["A"]}
+    add(tree(allbad), ["bad/Bad1.mo", "bad/Bad2.mo"], None, None, [])
+    add(tree(allbad), ["bad"], None, None, ["A", "Zed"])
+    tu = tree(allbad)
+    tu["bin"] = {"bad/U.mo": UNDECODABLE_HEX}
+    tu["files"]["bad/Deep.mo"] = DEEP
+    add(tu, ["bad/Bad2.mo", "bad/U.mo", "bad/sub/Bad3.mo", "bad/Deep.mo"], "out", "sympy", ["A"])
+    add(tree(allbad), ["bad/Bad1.mo"], None, None, [])
     # usage errors
     add(tree(lib_ok), ["lib", "nope", "zz.mo"], "nonexistent_out", None, ["A"], options=["a=b=c", "ok=1", "novalue"])
     add(tree(lib_ok), ["lib"], "lib/A.mo", "sympy", ["A"])
@@ -647,7 +683,7 @@ def signature(case, res):
 def make_cases(ctx, casadi_bias=False):
     cases = corpus()
     n_corpus = len(cases)
-    n_rand = ctx.scaled(50, 1800)
+    n_rand = ctx.scaled(40, 1800)
     n_casadi = ctx.scaled(6, 120)
     n_arg = ctx.scaled(9, 60)
     n_und = ctx.scaled(2, 12)
@@ -659,6 +695,9 @@ def make_cases(ctx, casadi_bias=False):
     # stems occurring 0..5 times; many more when the casadi skeleton could not be read off the source
     for _ in range(ctx.scaled(8, 150) + (ctx.scaled(40, 300) if casadi_bias else 0)):
         cases.append(gen_casadi_mult(ctx.rng))
+    # only unparsable files; more of them when the source shape (parse_all included) is not recognised
+    for _ in range(ctx.scaled(5, 80) + (ctx.scaled(15, 100) if casadi_bias else 0)):
+        cases.append(gen_all_bad(ctx.rng))
     for _ in range(n_arg):
         cases.append(gen_argparse_case(ctx.rng))
     for _ in range(n_und):
